@@ -42,7 +42,7 @@ FROM_ELEM = re.compile(r"\bvec::from_elem$")
 PAYLOAD_KEEP = re.compile(r"\bOption::<T>::(ok_or|ok_or_else|copied|cloned|filter|or|or_else|take)$|\bResult::<T, E>::(map_err|ok|or|or_else|inspect_err)$")
 GET_CALL = re.compile(r"core::slice::<impl \[T\]>::(get|get_mut)$|\bVec::<T, A>::get$")
 FIND_CALL = re.compile(r"core::str::<impl str>::(find|rfind)$|memchr::memchr$")
-INPUT_CALL = re.compile(r"core::str::<impl str>::parse$|::from_str_radix$|\bFromStr>?::from_str$|::from_(be|le|ne)_bytes$|\bReadBytesExt>?::read_\w+$|BinReaderExt>?::read_\w+$|\bBinRead>?::read\w*$|::read_(u|i)\d+\w*$|::get_(u|i)\d+\w*$")
+INPUT_CALL = re.compile(r"core::str::<impl str>::parse$|::from_str_radix$|\bFromStr>?::from_str$|::from_(be|le|ne)_bytes$|\bReadBytesExt>?::read_\w+$|BinReaderExt>?::read_\w+$|\bBinRead>?::read\w*$|::read_(u|i)\d+\w*$|::get_(u|i)\d+\w*$|\bfs::Metadata::len$")
 
 
 class Lin:
@@ -118,7 +118,7 @@ def fmt_atom(a):
 
 
 class State:
-    __slots__ = ("env", "facts", "cmp", "pts", "ver", "lendef", "rng", "post", "disc", "clos")
+    __slots__ = ("env", "facts", "cmp", "pts", "ver", "lendef", "rng", "post", "disc", "clos", "agg")
 
     def __init__(self):
         self.env = {}
@@ -131,6 +131,7 @@ class State:
         self.post = {}
         self.disc = {}
         self.clos = {}
+        self.agg = {}
 
     def copy(self):
         s = State()
@@ -144,11 +145,12 @@ class State:
         s.post = dict(self.post)
         s.disc = dict(self.disc)
         s.clos = dict(self.clos)
+        s.agg = dict(self.agg)
         return s
 
     def same(self, o):
         return (self.env == o.env and self.facts == o.facts and self.cmp == o.cmp and self.pts == o.pts and self.ver == o.ver
-                and self.lendef == o.lendef and self.rng == o.rng and self.post == o.post and self.disc == o.disc and self.clos == o.clos)
+                and self.lendef == o.lendef and self.rng == o.rng and self.post == o.post and self.disc == o.disc and self.clos == o.clos and self.agg == o.agg)
 
 
 def join(states, bb, phi_src=None, prover=None):
@@ -187,7 +189,7 @@ def join(states, bb, phi_src=None, prover=None):
             if len(f.t) <= 3 and all((f in s.facts) or prover(s, f) for s in states):
                 facts.add(f)
     out.facts = frozenset(facts)
-    for name in ("cmp", "pts", "ver", "rng", "post", "disc", "clos"):
+    for name in ("cmp", "pts", "ver", "rng", "post", "disc", "clos", "agg"):
         d0 = getattr(first, name)
         d = {}
         for k, v in d0.items():
@@ -245,6 +247,8 @@ class Analysis:
     def __init__(self, body, max_iter=40, assume=(), requires=None, summaries=None, posts=None):
         self.b = body
         self.ret_taints = (posts or {}).get("ret_taints", {})
+        self.pos_info = {}
+        self.slice_of = {}
         self.req_src = (posts or {}).get("src", {})
         self.req_ty = (posts or {}).get("ty", {})
         self.posts = (posts or {}).get("facts", {})
@@ -304,8 +308,33 @@ class Analysis:
         if len(p) == 2 and p[1] == "*":
             if p[0] in st.pts:
                 return st.env.get(st.pts[p[0]])
-            return st.env.get(p[0]) if self.is_slice_ref(p[0]) else None
+            if self.is_slice_ref(p[0]):
+                return st.env.get(p[0])
+            if re.match(r"^&(mut )?(u8|u16|u32|u64|usize)$", self.ty(p[0])):
+                # an integer behind a reference (`offset: &mut usize`): one value until something writes through the reference
+                if (p[0], "*") not in st.env:
+                    a_ = ("drf", p[0], st.ver.get(p[0], 0), bb, idx)
+                    self.atom_src[a_] = ("param" if 1 <= p[0] <= self.b.argc else "other", "")
+                    self.atom_ty[a_] = self.ty(p[0]).split(" ")[-1].lstrip("&")
+                    st.env[(p[0], "*")] = Lin.atom(a_)
+                return st.env[(p[0], "*")]
         return None
+
+    def resolve_fld(self, st, ident, path):
+        """look through struct literals: (`Self { footer, .. }`, ('footer', 'x')) -> (identity of footer, ('x',))"""
+        hops = 0
+        while ident is not None and ident[0] in ("vec", "arg") and ident[1] in st.agg and hops < 4:
+            am = dict(st.agg[ident[1]])
+            if "=" in am:
+                ident = am["="]
+                hops += 1
+                continue
+            if len(path) <= 1 or path[0] not in am:
+                break
+            ident = am[path[0]]
+            path = tuple(path[1:])
+            hops += 1
+        return ident, tuple(path)
 
     def field_atom(self, st, p):
         """canonical atom for `base.f.g` / `(*base).f.g`: the same field of the same (unchanged) object is the same value"""
@@ -314,6 +343,8 @@ class Analysis:
         ident = None
         if rest and rest[0] == "*":
             ident = self.value_atom(st, {"k": "cp", "p": [l]})
+            if ident == ("arg", l) and st.ver.get(l, 0) != 0:
+                ident = ("vec", l, st.ver.get(l, 0))     # something was written through this `&mut` parameter: not the entry object any more
             rest = rest[1:]
         else:
             ident = ("vec", l, st.ver.get(l, 0))
@@ -321,6 +352,10 @@ class Analysis:
                 ident = ("arg", l)     # a by-value struct / tuple parameter that was not touched: its fields are entry values
         if ident is None or not rest or not all(isinstance(e, dict) and "f" in e and "d" not in e for e in rest):
             return None
+        # `Self { footer, .. }` then `self.footer.x`, `_t = move footer`: the field IS the field of the value it was built / moved from
+        names = tuple(str(e.get("n") or e.get("f")) for e in rest)
+        ident, names2 = self.resolve_fld(st, ident, names)
+        rest = rest[len(names) - len(names2):]
         if isinstance(ident, tuple) and ident[0] == "vec" and isinstance(ident[2], tuple) and ident[2][0] == "vol":
             return None
         path = tuple(str(e.get("n") or e.get("f")) for e in rest)
@@ -382,12 +417,22 @@ class Analysis:
         st.post.pop(l, None)
         st.disc.pop(l, None)
         st.clos.pop(l, None)
+        st.agg.pop(l, None)
         st.ver[l] = (st.ver.get(l, 0) + 1) if isinstance(st.ver.get(l, 0), int) else ("k", st.ver.get(l))
 
     # ---- transfer ------------------------------------------------------------------------------------------------
     def assign(self, st, bb, idx, s):
         p = s["p"]
         r = s["r"]
+        if len(p) == 2 and p[1] == "*" and re.match(r"^&mut (u8|u16|u32|u64|usize)$", self.ty(p[0])):
+            v_ = None
+            if r["k"] == "Use":
+                v_ = self.operand(st, r["o"][0], bb, idx)
+            if v_ is not None:
+                st.env[(p[0], "*")] = v_
+            else:
+                st.env.pop((p[0], "*"), None)
+            return
         if len(p) != 1:
             # write through a projection: the base container may change
             base = p[0]
@@ -406,6 +451,7 @@ class Analysis:
         ptsv = None
         rngv = None
         closv = None
+        aggv = None
         fields = {}
         if k == "Use":
             o = r["o"][0]
@@ -427,10 +473,16 @@ class Analysis:
                     self.atom_src.setdefault(ua, ("other", ups[0]["n"]))
                     self.atom_ty.setdefault(ua, self.ty(d))
                     val = Lin.atom(ua)
-            if val is None and o["k"] in ("cp", "mv") and INT.match(self.ty(d)) and len(o["p"]) >= 2:
+            if val is None and o["k"] in ("cp", "mv") and (INT.match(self.ty(d)) or self.is_slice_ref(d)) and len(o["p"]) >= 2:
                 fa = self.field_atom(st, o["p"])
                 if fa is not None:
                     val = Lin.atom(fa)
+            if val is None and o["k"] in ("cp", "mv") and len(o["p"]) >= 2 and re.match(r"^core::option::Option<(u8|u16|u32|u64|usize)>$", self.ty(d)):
+                # an optional header field (`content_key_size: Option<u8>`): what `unwrap_or(..)` makes of it is still that field
+                fl = [e for e in o["p"][1:] if isinstance(e, dict) and "f" in e and e.get("a")]
+                if fl:
+                    fields["payload"] = self.fresh("ld", bb, idx, "field:%s.%s" % (fl[-1]["a"], fl[-1]["n"]), "")
+                    self.atom_ty[fields["payload"].single()] = re.search(r"<(\w+)>", self.ty(d)).group(1)
             if val is None and o["k"] in ("cp", "mv") and INT.match(self.ty(d)):
                 # a load: from a byte slice -> input; else opaque
                 base_ty = self.ty(o["p"][0])
@@ -480,6 +532,11 @@ class Analysis:
             elif op in ("Rem",) and a is not None and c is not None and c.is_const() and c.c > 0:
                 q = self.fresh("rem", bb, idx, "derived", "")
                 st.facts = st.facts | {q.addc(-(c.c - 1))}
+                val = q
+            elif op in ("Rem",) and a is not None and c is not None and not c.is_const():
+                q = self.fresh("rem", bb, idx, "derived", "")
+                self.derive(q, [a])
+                st.facts = st.facts | {q.addc(1).sub(c)}      # x % d < d (d == 0 panics at the remainder itself)
                 val = q
             elif op in ("BitAnd",) and c is not None and c.is_const() and c.c >= 0:
                 q = self.fresh("and", bb, idx, "derived", "")
@@ -541,6 +598,9 @@ class Analysis:
                 ptsv = st.pts.get(rp[0])
             elif any(isinstance(e, dict) and ("i" in e or "ci" in e) for e in rp[1:]) and re.search(r"\[u8", self.ty(rp[0])):
                 self.byte_refs.add(d)      # a reference to one byte of a byte slice (slice patterns: `[tag, len, rest @ ..]`)
+            elif len(rp) >= 3 and rp[-1] == "*" and isinstance(rp[-2], dict) and re.match(r"^&(mut )?(\[[^;]*\]|str)$", rp[-2].get("t", "")) and self.field_atom(st, rp[:-1]) is not None:
+                # &*self.data where the field is itself a slice reference: the same slice (a slice cannot be resized through any reference)
+                val = Lin.atom(self.field_atom(st, rp[:-1]))
             elif not r.get("mut") and self.field_atom(st, rp) is not None:
                 # &self.field / &(*p).field: the container stored in that field of that (unchanged) object
                 val = Lin.atom(self.field_atom(st, rp))
@@ -564,6 +624,20 @@ class Analysis:
                 pv_ = self.operand(st, r["o"][0], bb, idx)
                 if pv_ is not None:
                     fields["payload"] = pv_
+            elif r.get("ak") == "adt" and r.get("fields") and r.get("adt", "").startswith(("cascette_", "verif_selftest")):
+                am = {}
+                for fn_, o in zip(r["fields"], r["o"]):
+                    if o["k"] in ("cp", "mv") and len(o["p"]) == 1 and not INT.match(self.ty(o["p"][0])):
+                        l0 = o["p"][0]
+                        am[fn_] = ("vec", l0, st.ver.get(l0, 0)) if not (1 <= l0 <= self.b.argc and st.ver.get(l0, 0) == 0) else ("arg", l0)
+                        al_ = dict(st.agg.get(l0, ())).get("=")
+                        if al_ is not None:
+                            am[fn_] = al_         # the operand is itself a moved struct: keep the identity it was moved from
+                    v_ = self.operand(st, o, bb, idx)
+                    if v_ is not None:
+                        fields[fn_] = v_
+                if am:
+                    aggv = tuple(sorted(am.items()))
             elif r.get("ak") == "closure":
                 caps = []
                 for o in r["o"]:
@@ -611,6 +685,13 @@ class Analysis:
             st.pts[d] = ptsv
         if rngv is not None:
             st.rng[d] = rngv
+        if aggv is not None:
+            st.agg[d] = aggv
+        elif k == "Use" and r["o"][0]["k"] in ("cp", "mv") and len(r["o"][0]["p"]) == 1 and self.ty(d).startswith(("cascette_", "verif_selftest")):
+            # a struct moved into a temporary keeps its identity (`_443 = move footer`): field facts about the source hold for the copy
+            l0_ = r["o"][0]["p"][0]
+            src_ver = getattr(self, "_src_ver", {}).get((bb, idx))
+            st.agg[d] = (("=", ("vec", l0_, st.ver.get(l0_, 0)) if not (1 <= l0_ <= self.b.argc and st.ver.get(l0_, 0) == 0) else ("arg", l0_)),)
         if closv is not None:
             st.clos[d] = closv
         elif k == "Use" and r["o"][0]["k"] in ("cp", "mv") and len(r["o"][0]["p"]) == 1 and r["o"][0]["p"][0] in st.clos:
@@ -729,6 +810,29 @@ class Analysis:
         return ub
 
     # ---- sinks ---------------------------------------------------------------------------------------------------
+    def char_boundary(self, st, x, va, ln, _depth=0):
+        """is byte offset `x` of the str `va` certainly a character boundary? 0, the length, where a `find` match starts, and where it ends
+        when the pattern's byte length is exact (a literal, a constant char, another str)"""
+        if x.is_const():
+            return x.c == 0
+        if ln is not None and x.sub(ln).is_const() and x.sub(ln).c == 0:
+            return True
+        for sub, (parent, start) in list(self.slice_of.items()):
+            # an offset into `&s[start..]` is an offset into `s` (reaching this point means `start` was a boundary)
+            if parent == va and _depth < 3 and any(self.pos_info.get(a_, (None,))[0] == sub for a_ in x.atoms()):
+                if self.char_boundary(st, x.sub(start), sub, self.len_of(st, sub), _depth + 1):
+                    return True
+        for a_ in x.atoms():
+            info = self.pos_info.get(a_)
+            if info is None or x.t.get(a_) != 1 or info[0] is None or info[0] != va:
+                continue
+            rest = x.sub(Lin.atom(a_))
+            if rest.is_const() and rest.c == 0:
+                return True
+            if info[1] is not None and rest.sub(info[1]).is_const() and rest.sub(info[1]).c == 0:
+                return True
+        return False
+
     def sink(self, st, bb, kind, what, goals, index_lins, loc):
         proofs = []
         ok = True
@@ -883,10 +987,18 @@ class Analysis:
                         idxs = [x for x in rg[1:] if x is not None]
                 if goals:
                     self.sink(st, bb, "range", what, goals, idxs, loc)
+                if re.match(r"^&(mut )?(str|alloc::string::String)$", at[0] if at else "") and "RangeFull" not in ity:
+                    ends = [x for x in ((rg[1:] if rg else ()) or ())] if rg else [None]
+                    if rg and rg[0] in ("RangeFull",):
+                        ends = []
+                    okb = bool(rg) and all(x is None or self.char_boundary(st, x, va, ln) for x in ends) and any(x is not None for x in ends)
+                    self.sink(st, bb, "charboundary", what, [Lin(0)] if okb else [None], [x for x in ends if x is not None], loc)
                 if d is not None:
                     val = self.fresh("sl", bb, "t", "other", "")
                     if res_len is not None:
                         lendef = (val.single(), res_len)
+                    if va is not None and rg and (rg[1] is not None or rg[0] in ("RangeTo", "RangeFull")):
+                        self.slice_of[val.single()] = (va, rg[1] if rg[1] is not None else Lin(0))
         elif FIND_CALL.search(name) and len(args) >= 2:
             # position APIs: Some(p) with p + len(pattern) <= len(haystack) (p < len for element searches)
             ln = self.len_of(st, self.value_atom(st, args[0]))
@@ -907,6 +1019,15 @@ class Analysis:
                 if pl is not None:
                     newfacts.append(payload.add(pl).sub(ln))
                 newfacts.append(payload.sub(ln))
+                if re.match(r"^&(mut )?str$", at[0] if at else ""):
+                    # char boundaries: the match starts at one, and ends at one when the pattern's byte length is known exactly
+                    exact = pl
+                    if a1["k"] == "c" and a1.get("ty") == "char":
+                        cp_ = int(a1.get("v", "0") or 0)
+                        exact = Lin(1 if cp_ < 0x80 else 2 if cp_ < 0x800 else 3 if cp_ < 0x10000 else 4)
+                    elif not (a1["k"] == "c" or (a1["k"] in ("cp", "mv") and re.match(r"^&(str|alloc::string::String)$", (at[1] if len(at) > 1 else "")))):
+                        exact = None
+                    self.pos_info[payload.single()] = (self.value_atom(st, args[0]), exact)
         elif GET_CALL.search(name) and len(args) == 2 and INT.match((at[1] if len(at) > 1 else "")):
             ln = self.len_of(st, self.value_atom(st, args[0]))
             i_ = self.operand(st, args[1], bb, "t")
@@ -917,6 +1038,9 @@ class Analysis:
             m = self.operand(st, args[1], bb, "t")
             if ln is not None and m is not None:
                 self.sink(st, bb, "split_at", "split_at", [m.sub(ln)], [m], loc)
+                if name.endswith("<impl str>::split_at"):
+                    okb = self.char_boundary(st, m, self.value_atom(st, args[0]), ln)
+                    self.sink(st, bb, "charboundary", "str::split_at", [Lin(0)] if okb else [None], [m], loc)
             else:
                 self.sink(st, bb, "split_at", "split_at", [None], [m] if m is not None else [], loc)
         elif COPY_FROM.search(name) and len(args) == 2:
@@ -984,7 +1108,8 @@ class Analysis:
                         sub = st.env[(act["p"][0], int(a[2][0]))]
                         idx_l.append(sub)
                     elif ident is not None:
-                        na = ("fld", ident, a[2])
+                        ident, pth_ = self.resolve_fld(st, ident, a[2])
+                        na = ("fld", ident, pth_)
                         if na not in self.atom_src:
                             self.atom_src[na] = self.req_src.get(a, ("other", ""))
                             self.atom_ty[na] = self.req_ty.get(a, "")
@@ -1008,7 +1133,8 @@ class Analysis:
                     if ident is None:
                         inst = None
                         break
-                    na = ("fld", ident, a[2])
+                    ident, pth_ = self.resolve_fld(st, ident, a[2])
+                    na = ("fld", ident, pth_)
                     if na not in self.atom_src:
                         self.atom_src[na] = self.post_src.get(a, ("other", ""))
                         self.atom_ty[na] = self.post_ty.get(a, "")
@@ -1040,7 +1166,8 @@ class Analysis:
         if payload is None and d is not None and val is None:
             m_ = re.match(r"^core::(result::Result|option::Option)<(u8|u16|u32|u64|usize|i8|i16|i32|i64|isize)\b", self.ty(d))
             if m_:
-                kind_ = "input" if (INPUT_CALL.search(name) or INPUT_CALL.search(orig) or "input" in self.ret_taints.get(cid, ())) else "call:%s" % name.split("::")[-1]
+                rtk_ = sorted(self.ret_taints.get(cid, ()))
+                kind_ = "input" if (INPUT_CALL.search(name) or INPUT_CALL.search(orig) or "input" in rtk_) else (rtk_[0] if rtk_ else "call:%s" % name.split("::")[-1])
                 payload = self.fresh("pay", bb, "t", kind_, name, m_.group(2))
                 srcs_ = [self.operand(st, a, bb, "t") for a in args]
                 self.derive(payload, [x for x in srcs_ if x is not None])
@@ -1051,7 +1178,17 @@ class Analysis:
                 l = a["p"][0]
                 aty = at[i] if i < len(at) else self.ty(l)
                 if aty.startswith("&mut") or aty.startswith("&'") and " mut " in aty[:12]:
+                    st.env.pop((l, "*"), None)
                     tgt = st.pts.get(l)
+                    if tgt is None:
+                        # a reborrow of a `&mut` parameter (`self.advance()`): the callee may write any field of the object
+                        e_ = st.env.get(l)
+                        a_ = e_.single() if e_ is not None else None
+                        inner = re.sub(r"^&('\S+ )?mut ", "", aty)
+                        if a_ is not None and a_[0] == "arg" and not (inner.startswith("[") or inner == "str") and not INT.match(inner):
+                            st.ver[a_[1]] = ("m", bb, i)
+                            for kk in [kk for kk in st.env if isinstance(kk, tuple) and kk[0] == a_[1]]:
+                                st.env.pop(kk, None)
                     if tgt is not None:
                         if re.search(r"\bIterator>?::next$", orig or name) and tgt in st.rng:
                             keep_rng = (tgt, st.rng[tgt])
@@ -1086,12 +1223,15 @@ class Analysis:
                 st.lendef[("vec", d, st.ver.get(d, 0))] = vec_len
             if val is None and payload is None and cmpv is None and INT.match(self.ty(d)):
                 kind = "other"
-                if INPUT_CALL.search(name) or INPUT_CALL.search(orig) or "input" in self.ret_taints.get(cid, ()):
+                rtk_ = sorted(self.ret_taints.get(cid, ()))
+                if INPUT_CALL.search(name) or INPUT_CALL.search(orig) or "input" in rtk_:
                     kind = "input"
+                elif rtk_:
+                    kind = rtk_[0]
                 elif args and not LEN_CALL.search(name):
                     kind = "call:%s" % name.split("::")[-1]
                 val = self.fresh("call", bb, "t", kind, name)
-                srcs = [self.operand(st, a, bb, "t") for a in args]
+                srcs = [self.operand(st, a, bb, "t") for a in args] + [st.env.get((a["p"][0], "payload")) for a in args if a["k"] in ("cp", "mv") and len(a["p"]) == 1]
                 self.derive(val, [x for x in srcs if x is not None])
             if val is None and self.is_slice_ref(d):
                 val = self.fresh("s", bb, "t", "other", name)
@@ -1159,6 +1299,14 @@ class Analysis:
                         self.sink(st, bb, "bounds", "slice/array index", [cv[1].addc(1).sub(cv[2])], [cv[1]], loc)
                     else:
                         self.sink(st, bb, "bounds", "slice/array index", [None], [], loc)
+                if str(t.get("m", "")) in ("DivisionByZero", "RemainderByZero") and cv and cv[0] == "Eq":
+                    dv = cv[1] if (cv[2].is_const() and cv[2].c == 0) else cv[2]
+                    loc = "%s:%d" % (b.file, t.get("l", 0))
+                    g_ = Lin(1).sub(dv)
+                    okp = (dv.is_const() and dv.c != 0) or self.prove(st, g_) is not None
+                    sk = Sink(self.b, bb, "divzero", "division by a value that may be zero", [g_], [dv], loc, okp, ["nonzero" if okp else None])
+                    sk.used_assumptions = set()
+                    self._sinks_now.append(sk)
                 if str(t.get("m", "")).startswith("Overflow(") and c["k"] in ("cp", "mv") and len(c["p"]) == 2:
                     info = self._ovf.get((bb, c["p"][0]))
                     tty = self.ty(c["p"][0])
@@ -1333,7 +1481,7 @@ def analyse_closure(prog, cl, rounds=4, krate_prefix="cascette_"):
                 continue
             a0 = Analysis(b, requires=requires, summaries=summaries, posts=posts)
             results[bid] = a0
-            rt_ = {t_ for t_ in a0.ret_taint if t_ == "input"}
+            rt_ = {t_ for t_ in a0.ret_taint if t_ == "input" or t_.startswith("field:cascette_")}
             if rt_ and posts["ret_taints"].get(bid) != rt_ and not b.root:
                 posts["ret_taints"][bid] = rt_
                 changed.add(bid)
@@ -1361,13 +1509,13 @@ def analyse_closure(prog, cl, rounds=4, krate_prefix="cascette_"):
                         sk.delegated = bad
                         req |= set(bad)
                 # (2) int_param <= len(slice_param)
-                rest = [sk for sk in unp if not sk.delegated and sk.kind != "overflow"]
+                rest = [sk for sk in unp if not sk.delegated and sk.kind not in ("overflow", "divzero")]
                 hyps = candidate_hyps(b)
                 if rest and hyps:
                     a1 = Analysis(b, assume=hyps, requires=requires, summaries=summaries, posts=posts)
                     if len(a1.sinks) == len(a0.sinks):
                         for s0, s1 in zip(a0.sinks, a1.sinks):
-                            if s0.kind == "overflow":
+                            if s0.kind in ("overflow", "divzero"):
                                 continue
                             if not s0.proven and not s0.delegated and s1.proven and getattr(s1, "used_assumptions", None):
                                 s0.delegated = sorted(s1.used_assumptions, key=repr)
